@@ -97,7 +97,10 @@ int libwifi_parse_radiotap_info(struct libwifi_radiotap_info *info, const unsign
                 }
                 break;
             case IEEE80211_RADIOTAP_ANTENNA:
-                info->antennas[info->antenna_count - 1].antenna_number = *it.this_arg;
+                // The antenna number belongs to the per-antenna entry opened by the preceding signal field
+                if (info->antenna_count > 0) {
+                    info->antennas[info->antenna_count - 1].antenna_number = *it.this_arg;
+                }
                 break;
             case IEEE80211_RADIOTAP_DBM_ANTNOISE:
                 break;
@@ -150,7 +153,7 @@ int8_t libwifi_parse_radiotap_rssi(const unsigned char *frame) {
 
     int8_t rssi = 0;
 
-    struct ieee80211_radiotap_iterator it;
+    struct ieee80211_radiotap_iterator it = {0};
     int ret = ieee80211_radiotap_iterator_init(&it, (void *) frame, rh->it_len, NULL);
 
     while (!ret) {
